@@ -639,10 +639,16 @@ func (fr *Frame) loopMods(l *loop) loopModSet {
 	for a := range as {
 		ms.allocs = append(ms.allocs, a)
 	}
-	sort.Slice(ms.allocs, func(i, j int) bool { return ms.allocs[i].Pos() < ms.allocs[j].Pos() })
+	sort.SliceStable(ms.allocs, func(i, j int) bool {
+		if ms.allocs[i].Pos() != ms.allocs[j].Pos() {
+			return ms.allocs[i].Pos() < ms.allocs[j].Pos()
+		}
+		return ms.allocs[i].Name() < ms.allocs[j].Name()
+	})
 	for r := range rs {
 		ms.ranges = append(ms.ranges, r)
 	}
+	sort.Slice(ms.ranges, func(i, j int) bool { return ms.ranges[i].Pos() < ms.ranges[j].Pos() })
 	ms.heaps = hs
 	return ms
 }
@@ -656,6 +662,8 @@ func (fr *Frame) precreateGhosts(l *loop, st *State) bool {
 	for b := range l.body {
 		blocks = append(blocks, b)
 	}
+	// deterministic order: the names of the declared symbols depend on it
+	sort.Slice(blocks, func(i, j int) bool { return blocks[i].Index < blocks[j].Index })
 	return fr.precreateGhostsIn(blocks, fr.fn, st)
 }
 
@@ -1674,7 +1682,8 @@ func (fr *Frame) unbox(st *State, iv Val, t types.Type) Val {
 	v := fx.loadObj(st, sh, iv.ifBox())
 	if sh.kind == KStr {
 		// constant boxes
-		for b, info := range fx.constBoxInfo {
+		for _, b := range sortedKeys(fx.constBoxInfo) {
+			info := fx.constBoxInfo[b]
 			if info.sh.key == sh.key {
 				cv := fx.strConst(sh, info.s)
 				v = iteVal(eq(iv.ifBox(), b), cv, v)
